@@ -77,7 +77,8 @@ where
     }
 
     fn increase_limit(&mut self, dir: Dir, val: u64) {
-        assert!(val <= MAX_STREAMS_LIMIT);
+        // `val` is a count of streams: 2^60 of them have indices up to MAX_STREAMS_LIMIT
+        assert!(val <= MAX_STREAMS_LIMIT + 1);
         let max_streams = &mut self.max[dir as usize];
         // RFC9000: MAX_STREAMS frames that do not increase the stream limit MUST be ignored.
         if *max_streams < val {
